@@ -15,7 +15,7 @@ ALL_PROPS = ["C%02d" % i for i in range(1, 21)]
 
 # Verus units: name -> (python module, properties the unit's unlabelled obligations are charged to)
 VERUS_UNITS = {
-    "backend": ("units_backend", ["C02", "C03", "C04", "C05", "C07", "C09", "C20", "C01"]),
+    "backend": ("units_backend", ["C02", "C03", "C04", "C05", "C07", "C09", "C20", "C01", "C13"]),
     "frontend": ("units_frontend", ["C01", "C02", "C03", "C06", "C07", "C10"]),
     "proxy": ("units_proxy", ["C18", "C06", "C07", "C10", "C09", "C01"]),
     "misc": ("units_misc", ["C08", "C13", "C14", "C15", "C19", "C05"]),
@@ -209,7 +209,18 @@ def run_verus_unit(name, prop, tier, keep=False):
     myscans = [s for s in u.scans if prop in s[0]]
     res["scans"] = [dict(name=s[1], ok=s[2], desc=s[3]) for s in myscans]
     res["obligations"] = nlabel + nfun + len(myscans)
+    scan_bad = 0
+    for s in myscans:
+        if not s[2]:
+            scan_bad += 1
+            res["failures"].append(dict(engine="scan", unit=name, fn=s[1], label=",".join(s[0]), message="syntactic frame condition violated",
+                                        clause=s[3], extracted=None, key="scan:%s:%s" % (name, s[1]), rendered=s[3], path=path))
     if vr.undecided:
+        if scan_bad:
+            res["status"] = "fail"
+            res["discharged"] = 0
+            res["undecided_note"] = vr.undecided
+            return res
         res["status"] = "undecided"
         res["undecided"] = vr.undecided
         res["raw"] = (vr.raw_stderr or "")[-4000:]
@@ -217,12 +228,8 @@ def run_verus_unit(name, prop, tier, keep=False):
             os.unlink(path)
         return res
     default_props = VERUS_UNITS[name][1]
-    bad = 0
-    for s in myscans:
-        if not s[2]:
-            bad += 1
-            res["failures"].append(dict(engine="scan", unit=name, fn=s[1], label=",".join(s[0]), message="syntactic frame condition violated",
-                                        clause=s[3], extracted=None, key="scan:%s:%s" % (name, s[1]), rendered=s[3], path=path))
+    bad = scan_bad
+
     for d in vr.diags:
         labels = [x.split(":")[0] for x in re.split(r'[,\s]+', d["label"])] if d["label"] else None
         charged = (prop in labels) if labels else (prop in default_props)
